@@ -361,3 +361,43 @@ def verify_match_path(pc, E):
                  note='conversion errors (KeyError/TypeError/ValueError) mean no match; nothing escapes')
     E.add_contract(c, key='clastic.route.BoundRoute.match_path#verify')
     pc.add_functions(E, ['clastic.route.BoundRoute.match_path#verify'])
+
+
+def verify_execute(pc, E):
+    """BoundRoute.execute / execute_error themselves (C02): one inject call, on the compiled chain
+    (resp. the error renderer), with the mapping the statement describes: the caller's keywords
+    win, then the route's resources, then the three built-ins of the route."""
+    from contracts.sinter import TFunc
+    fields = {'resources': TDict(TStr, TObj()), 'bound_apps': TList(TObj('App')),
+              '_execute': TFunc, 'render_error': TObj()}
+    SRC = ('(_kwargs0[k] if k in _kwargs0 else (self.resources[k] if k in self.resources else '
+           '(self if k == "_route" else (request if k == "request" else %s))))')
+    common = ['ninject() == 1']
+    c = Contract('clastic.route.BoundRoute.execute',
+                 params={'self': TInst('clastic.route.BoundRoute', fields), 'request': TObj('Request'),
+                         'kwargs': TDict(TStr, TObj())},
+                 requires=['len(self.bound_apps) >= 1'],
+                 ghost={'_kwargs0': 'kwargs', '_app0': 'self.bound_apps[-1]'},
+                 ensures=common + [
+                     'inject_fn(0) is self._execute',
+                     'keys(inject_map(0)) == keys(_kwargs0) | keys(self.resources) | set(["_route", "request", "_application"])',
+                     'forall_keys(inject_map(0), lambda k, v: v is %s)' % (SRC % '_app0'),
+                     'inject_returned(0, result)'],
+                 exc_ensures=common + ['inject_raised(0, _exc)'],
+                 may_raise_any=True, returns=TObj(), prop=['C02'])
+    E.add_contract(c, key='clastic.route.BoundRoute.execute#verify')
+    SRC_E = ('(_kwargs0[k] if k in _kwargs0 else (self.resources[k] if k in self.resources else '
+             '(self if k == "_route" else (_error if k == "_error" else (request if k == "request" else _app0)))))')
+    c = Contract('clastic.route.BoundRoute.execute_error',
+                 params={'self': TInst('clastic.route.BoundRoute', fields), 'request': TObj('Request'),
+                         '_error': TObj(), 'kwargs': TDict(TStr, TObj())},
+                 requires=['len(self.bound_apps) >= 1'],
+                 ghost={'_kwargs0': 'kwargs', '_app0': 'self.bound_apps[-1]'},
+                 ensures=common + [
+                     'inject_fn(0) is self.render_error',
+                     'keys(inject_map(0)) == keys(_kwargs0) | keys(self.resources) | set(["_route", "_error", "request", "_application"])',
+                     'forall_keys(inject_map(0), lambda k, v: v is %s)' % SRC_E,
+                     'inject_returned(0, result)'],
+                 may_raise_any=True, returns=TObj(), prop=['C02'])
+    E.add_contract(c, key='clastic.route.BoundRoute.execute_error#verify')
+    pc.add_functions(E, ['clastic.route.BoundRoute.execute#verify', 'clastic.route.BoundRoute.execute_error#verify'])
